@@ -226,10 +226,39 @@ def c09_routing(tr):
     return v
 
 
-def c09(tr, sem=None):
-    if not any(n['is_switch'] for n in tr['graph']['nodes']):
+def c09_declared_routing(tr):
+    """trace-only, from the DECLARATIONS (not from the built graph, which a builder defect could have got wrong): a node
+    that declares `p: SwitchCase(decider, cases)` is invoked with p = the latest value of the case whose label is the
+    latest value of the decider (values as recorded by the artifact store)"""
+    nodes = tr['spec']['nodes']
+    marks = {i: [(p, m) for p, m in nd['marks'] if m['kind'] == 'switch'] for i, nd in enumerate(nodes)}
+    if not any(marks.values()):
         return []
-    return c09_routing(tr) + lazy(tr, sem)
+    last = {}
+    v = []
+    for _, o in _obs(tr, ('save', 'body')):
+        if o[0] == 'save':
+            last[o[2]] = o[3]
+            continue
+        n, kw = o[2], o[5]
+        for p, m in marks.get(n, []):
+            if p not in kw or m['decider'] not in last:
+                continue
+            lab = last[m['decider']]
+            want = next((c for l, c in m['cases'] if l == lab), None) if isinstance(lab, str) else None
+            if want is None or want not in last:
+                continue
+            if kw[p] != last[want] and not v:
+                v.append(f'node {n} declares {p}: SwitchCase(decider {m["decider"]}, …) and was invoked with {p}={kw[p]!r}; the '
+                         f'decider returned {lab!r}, whose case node {want} has the value {last[want]!r}')
+    return v
+
+
+def c09(tr, sem=None):
+    if not any(n['is_switch'] for n in tr['graph']['nodes']) and \
+            not any(m['kind'] == 'switch' for nd in tr['spec']['nodes'] for _, m in nd['marks']):
+        return []
+    return c09_routing(tr) + c09_declared_routing(tr) + lazy(tr, sem)
 
 
 def c10(tr, sem=None):
